@@ -315,6 +315,8 @@ Check_C10(s, e, o, s2) ==
     TagsIf(s2.dying /\ s2.cause = "connect-timeout" /\ o.now >= s2.dieAt + Poll + 1 /\ ~o.ended,
            Tag("C10", "half-open-survives", "phase-" \o s.cx.phase))
     \cup TagsIf(s2.cause = "connect-timeout" /\ o.ended /\ ~o.bclosed, Tag("C10", "broker-conn-open", "x"))
+    \cup TagsIf(s.alive /\ s2.dying /\ s2.cause = "connect-timeout" /\ o.ended /\ o.now > s2.dieAt + Poll + 1 /\ e.t = "Adv",
+                Tag("C10", "half-open-reaped-late", "x"))
     \cup TagsIf(s.cx.on /\ ~s.dying /\ o.ended /\ ~s2.dying /\ FALSE, Tag("C10", "unused", "x"))
 
 -----------------------------------------------------------------------------
@@ -366,6 +368,9 @@ Check_C12(s, e, o, s2, obsLastB) ==
 (* C13 sessions terminate cleanly and release everything                    *)
 Check_C13(s, e, o, s2) ==
     TagsIf(s2.dying /\ o.now >= s2.dieAt + Poll + 1 /\ ~o.ended, Tag("C13", "not-ended-in-time", s2.cause))
+    \* quiet ticks are merged into the line of the tick at which run() returned: that tick is the end time
+    \cup TagsIf(s.alive /\ s2.dying /\ o.ended /\ o.now > s2.dieAt + Poll + 1 /\ e.t = "Adv",
+                Tag("C13", "ended-late", s2.cause \o (IF s.st = "asleep" THEN "-asleep" ELSE "")))
     \cup TagsIf(o.ended /\ ~o.bclosed, Tag("C13", "broker-conn-open-after-end", s2.cause))
     \cup (IF ~s.dying /\ s2.dying /\ s2.cause # "client-disconnect" THEN
             TagsIf((Count(o.outC, {"DISCONNECT"}) = 1) # (s.st \in {"active", "awake"}),
